@@ -81,6 +81,8 @@ class Unit:
         self.extra_prelude: List[str] = []
         self.trait_methods = {}     # trait name -> set of methods emitted
         self.table = []             # (line_lo, line_hi, obligation, origin, kind)
+        self.inliner = None
+        self.ac_broadcast = True
         self.functions = []         # dicts for evidence
         self.assumed = []           # contracts assumed here, proved in another unit
         self.skipped = []           # (anchor, reason)
@@ -668,6 +670,10 @@ class Unit:
             body = '{ unimplemented!() }'
         else:
             body = src.body_text(f, self.subst)
+            if self.inliner is None:
+                from inline import Inliner
+                self.inliner = Inliner(self)
+            body = self.inliner.run(im, f, body)
             body = self.rewrite_body(body, c, f)
         spec = ''
         if c.requires:
@@ -723,9 +729,14 @@ class Unit:
                     body = re.sub(r'\b(%s\.[xyz])\.into\(\)' % m.group(1), r'<%s as Into<Rad<Sc>>>::into(\1)' % self.subst['A'], body)
         if c.closures:
             body = annotate_closures(body, c.closures, f)
-        if c.pre:
+        pre = c.pre
+        if self.model == 'R' and self.ac_broadcast:
+            # proof aid (not a rewrite of the code): commutativity of the model scalar's + and * is made available by
+            # trigger, so that swapping the operands of a product or a sum in /repo does not break a proof
+            pre = 'broadcast use {s_mul_comm, s_add_comm}; ' + (pre or '')
+        if pre:
             i = body.index('{')
-            body = body[:i + 1] + '\n proof { ' + c.pre + ' }\n' + body[i + 1:]
+            body = body[:i + 1] + '\n proof { ' + pre + ' }\n' + body[i + 1:]
         if c.tail:
             body = insert_before_tail(body, ' proof { ' + c.tail + ' }\n')
         return body
@@ -793,6 +804,8 @@ def annotate_closures(body, closures, f):
     out = body
     for k in sorted(closures, reverse=True):
         if k >= len(ms):
+            if not ms:
+                continue        # the function no longer contains a closure: nothing to annotate (the contract of the function itself stands)
             raise ExtractError('closure #%d not found in %s (lost anchor)' % (k, f.name))
         m = ms[k]
         a = closures[k]
@@ -816,7 +829,7 @@ def annotate_closures(body, closures, f):
                     if depth == 0:
                         break
                     depth -= 1
-                elif ch == ',' and depth == 0:
+                elif ch in ',;' and depth == 0:
                     break
                 j += 1
             out = out[:m.start()] + head + ' {' + pre + ' ' + out[m.end():j].strip() + ' }' + out[j:]
